@@ -258,7 +258,7 @@ fn pattern_events() -> Vec<(String, LogEvent)> {
     ("none", None),
   ];
   for (i, (name, m)) in msgs.into_iter().enumerate() {
-    let mut ev = LogEvent::new(levels()[i % 5], if i % 2 == 0 { "app::mod" } else { "é::t" }, "ev", m);
+    let mut ev = LogEvent::new(levels()[i % 5], if i % 2 == 0 { "app::mod" } else { "日本é::t" }, "ev", m);
     if i % 2 == 0 {
       ev.thread_name = Some("worker-1".into());
     }
@@ -329,7 +329,8 @@ pub fn run_pattern(a: &Args) {
   let kf = a.list("kf", "");
   let mut rng = Rng::new(a.num("seed", 1));
   let convs = ["d", "d{%Y-%m-%d}", "d{%H:%M:%S%.3f}", "p", "l", "t", "m", "T", "n", "X", "X{k1}", "X{missing}", "X{message}", "m{opt}"];
-  let mut pads: Vec<&str> = vec!["", "5", "-5", "0", "-0", "1", "-1", "40", "-40", "007", "300", "65535", "-65536", "100000", "2147483648", "99999999999"];
+  // (7, 8, 12, 15: wider than the non-ASCII targets / messages counted in characters, narrower than their byte length)
+  let mut pads: Vec<&str> = vec!["", "5", "-5", "7", "8", "-8", "12", "-12", "15", "0", "-0", "1", "-1", "40", "-40", "007", "300", "65535", "-65536", "100000", "2147483648", "99999999999"];
   let ovf = overflow_checks_on();
   if ovf {
     // only where the negation is checked: otherwise the width becomes 2^64 - 2^31 and the process dies allocating
